@@ -493,6 +493,30 @@ def g_quantvals(chk, P, D, sk):
            f'the search is entered with b->dim {bad[0][1]}: for dim == 0 it does not terminate (decoder init hangs)')
 
 
+def g_rejected_block(chk, P, D, sk):
+    """a rejected packet leaves no stale block behind: after the block arena was reset (_vorbis_block_ripcord), every
+    failing return of the packet parsers has vb->pcm == NULL, so a vorbis_synthesis_blockin that follows a rejected
+    vorbis_synthesis (the API allows any call order) finds nothing to read"""
+    import k2
+    for fn in ('vorbis_synthesis', 'vorbis_synthesis_trackonly'):
+        F = P.need(fn)
+        pid = F.params[0]['id']
+        A, h = k2.analyse(P, F, [('arena_reset', k2.is_call('_vorbis_block_ripcord'), True)], field_inv=D.field_inv_for(P.key(F)))
+        bad, n = [], 0
+        for (e, fl, v, env) in k2.ret_value_classes(A):
+            if v is None or v.hi >= 0 or 'arena_reset' not in fl:
+                continue
+            n += 1
+            pv = env.get(f'v{pid}->pcm')
+            if not (isinstance(pv, V) and pv.nn is False):
+                bad.append(e)
+        chk.require(n > 0, f'{fn}: no failing return after the arena reset')
+        chk.ob(RULE, fn, 'rejected-packet-leaves-no-stale-block', not bad, F.where(bad[0]) if bad else F.where(),
+               f'vb->pcm is NULL at all {n} failing returns reached after _vorbis_block_ripcord' if not bad else
+               f'{len(bad)} of {n} failing returns leave vb->pcm as it was: it points into the block arena that was just reset '
+               '(possibly re-allocated), and vorbis_synthesis_blockin would read it')
+
+
 def run(chk, P, D):
     chk.rule(RULE, 'listed semantic guards of the decoder are present, each stated over the resolved program: the set-up '
              'completeness gate; group/stage book checks and post uniqueness in the unpackers (for-all loops whose failing edge '
@@ -511,4 +535,5 @@ def run(chk, P, D):
     g_render_line_ctx(chk, P, D, sk)
     g_bytes_left(chk, P, D, sk)
     g_quantvals(chk, P, D, sk)
+    g_rejected_block(chk, P, D, sk)
     chk.floor(RULE, 25)
